@@ -105,13 +105,16 @@ theorem transpose_correct_cfg (cfg : Cfg) (sz nR nC : Nat) (hR : 0 < nR) (hC : 0
 /-- non-vacuity: the default AVX2 float build on a 9×11 matrix runs 1 full block column and both edge loops -/
 example : (blockedWrites (fun k => k) (fun _ _ _ => 0) (fun _ _ _ => 0) 9 11 8 1 1).length = 99 := by decide
 
-/-- **intrinsic leaf kernels** — every float/double kernel of transpose.h / transpose_kernels.h
+/-- **intrinsic leaf kernels, for every element type** — every float/double kernel of transpose.h / transpose_kernels.h
     (`_transpose<float,2,2|3,3|4,4|8,8|16,16>`, `<double,2,2|3,3|4,4|8,8>`, with `_MM_TRANSPOSE4_PS`, `_MM_TRANSPOSE8_PS`,
-    `_MM_TRANSPOSE4_PD`, `_MM_TRANSPOSE8_PD`, `_MM_TRANSPOSE16_PS`), as selected by the conditional compilation of the sse2,
-    avx, avx2 and avx512 configurations and translated statement by statement into Lean over the lane semantics of
-    `Model/Intrinsics.lean` (Generated/C14Kernels.lean, regenerated and compared on every run): run on lane tokens,
-    its stores leave exactly the transposed matrix in `out[0..n*n)` (so it is the lane permutation the generic leaf
-    loop of `transpose_correct` performs), no store falls outside the result and no load outside the source -/
+    `_MM_TRANSPOSE4_PD`, `_MM_TRANSPOSE8_PD`, `_MM_TRANSPOSE16_PS` and the partial load/store helpers of extintrin.h inlined),
+    as selected by the conditional compilation of the sse2, avx, avx2 and avx512 configurations and translated
+    statement by statement into Lean over the lane semantics of `Model/Intrinsics.lean` (Generated/C14Kernels.lean,
+    regenerated and compared on every run): for EVERY lane type `α`, every value `z` of a zeroed lane and every source
+    `a`, its stores leave exactly the transposed matrix in `out[0..n*n)` (so it is the lane permutation the generic
+    leaf loop of `transpose_correct` performs), no store falls outside the result and no load outside the source.
+    Proof per kernel: `decide` on lane tokens + naturality (`Proofs/Intrinsics.lean`: every intrinsic commutes with
+    mapping a function over the lanes; `Intr.of_tokens`). -/
 theorem intrinsic_leaf_kernels : C14K.AllKernels := C14K.all_kernels
 
 /-! ## permute -/
